@@ -427,7 +427,11 @@ class Renderer:
             on[ev] = self.render_tlist(ts, (ts[0].get("sp") if ts and ts[0] else None) if len(ts) == 1 else None)
         always = s.get("always") or []
         if always:
-            if sp.get("always_as_on"):
+            if sp.get("always_split"):
+                k_ = sp["always_split"]
+                on[""] = self.render_tlist(always[:k_])
+                cfg["always"] = self.render_tlist(always[k_:])
+            elif sp.get("always_as_on"):
                 on[""] = self.render_tlist(always)
             else:
                 cfg["always"] = self.render_tlist(always)
